@@ -205,6 +205,15 @@ mod error_idioms {
         let c: (fn(PasetoClaimError) -> Box<dyn std::error::Error + Send + Sync>, fn(PasetoClaimError) -> std::io::Error, fn(PasetoClaimError) -> String) = (boxed, io, through_thread);
         std::mem::size_of_val(&a) + std::mem::size_of_val(&b) + std::mem::size_of_val(&c) + status_of_parse_error as usize % 2 + status_of_build_error as usize % 2 + status_of_claim_error as usize % 2
     }
+    // the claim trait used as a trait object (a heterogeneous list of claims handed around before they reach a
+    // builder): object safety must not depend on the feature set
+    #[cfg(any(feature = "generic", feature = "crate_default"))]
+    pub fn claim_trait_objects() -> usize {
+        use rusty_paseto::generic::{IssuerClaim, PasetoClaim, SubjectClaim};
+        let boxed: Vec<Box<dyn PasetoClaim>> = vec![Box::new(IssuerClaim::from("i")), Box::new(SubjectClaim::from("s"))];
+        let by_ref: &dyn PasetoClaim = boxed[0].as_ref();
+        boxed.iter().map(|c| c.get_key().len()).sum::<usize>() + by_ref.get_key().len()
+    }
     // exhaustive matches without a catch-all arm (mapping an error to an HTTP status, a metric label ...): the
     // layer's own error enums have the same variants in every feature configuration
     #[cfg(any(feature = "generic", feature = "crate_default"))]
@@ -251,6 +260,11 @@ fn main() {
         let _ = error_idioms::core();
         #[cfg(any(feature = "generic", feature = "crate_default"))]
         let _ = error_idioms::generic();
+        #[cfg(any(feature = "generic", feature = "crate_default"))]
+        if error_idioms::claim_trait_objects() != 9 {
+            println!("SMOKE-FAIL claims generic claim keys through trait objects");
+            std::process::exit(3);
+        }
     }
     let mut failed = false;
     macro_rules! run {
